@@ -397,8 +397,14 @@ func (s *Stream) rawWriteLocked(kind drpcwire.Kind, data []byte) (err error) {
 	fr := s.newFrameLocked(kind)
 	n := s.opts.SplitSize
 
-	for {
+	for written := false; ; written = true {
 		switch {
+		case written && s.sigs.local.IsSet():
+			// canceled between two frames of this message, for instance while
+			// the previous frame was inside the transport: this write was in
+			// progress when it happened, so it reports the cancel error like a
+			// write that the transport failed, not the io.EOF of a later one.
+			return s.sigs.local.Err()
 		case s.sigs.send.IsSet():
 			return s.sigs.send.Err()
 		case s.sigs.term.IsSet():
@@ -700,7 +706,11 @@ func (s *Stream) Cancel(err error) bool {
 	}
 
 	s.sigs.cancel.Set(err)
-	s.sigs.local.Set(err)
+	if !s.sigs.term.IsSet() {
+		// only a cancel that is what ends the stream decides what the sends
+		// in progress report. if the remote ended it first they report that.
+		s.sigs.local.Set(err)
+	}
 	s.sigs.send.Set(io.EOF) // in this state, gRPC returns io.EOF on send.
 	s.terminate(err)
 	return false
